@@ -22,7 +22,7 @@ MANIFEST = dict(
     technique="TLA+ model check of Reinit = Init + TLC-generated histories with reinit replayed into Rust + TLC trace validation",
 )
 
-KINDS = ["smh_f64_fnv", "smh_f32_no", "smh2_u64_fnv", "smh2_u32_xx", "ss_u16", "ss_u32", "ss_i32", "pmh2"]
+KINDS = ["smh_f64_fnv", "smh_f32_no", "smh2_u64_fnv", "smh2_u32_xx", "ss_u16", "ss_u32", "ss_i32", "ss_u16_no", "pmh2"]
 
 
 def tags(hdr, bad):
